@@ -195,7 +195,7 @@ Print Assumptions C19_descriptor_stpp.
        decode (encode init) = init  /\  is_fragmented_init (decode (encode init))
        /\ forall track id of init, a fragment created for it decodes against decode (encode init).
    Proved parts: C19_elng_roundtrip (the one variable-length box written from AddEmptyTrack's arguments, with the
-   exact length boundary), C19_language_readback (mdhd language field), C19_trex_lookup (unique ids, a trex for
+   exact length boundary), C19_stpp_roundtrip (the stpp sample entry's strings), C19_language_readback (mdhd language field), C19_trex_lookup (unique ids, a trex for
    every track: what fragment decoding needs from the init).  The rest is evaluated on the real code by the
    search (encode -> DecodeFile -> equal Info dump, equal re-encoding, IsFragmented, single- and multi-track
    fragments with samples read back through the trex). *)
@@ -213,6 +213,14 @@ Theorem C19_elng_short_refuted :
   exists lang, no_nul lang = true /\ length lang = 1%nat /\ elng_decode (elng_payload lang) = Ok (true, []).
 Proof. exact elng_short_refuted. Qed.
 Print Assumptions C19_elng_short_refuted.
+
+(* the stpp sample entry (three zero-terminated strings) decodes to the strings supplied *)
+Theorem C19_stpp_roundtrip :
+  forall dref ns schema mime,
+    dref < 65536 -> no_nul ns = true -> no_nul schema = true -> no_nul mime = true ->
+    stpp_decode (stpp_payload dref ns schema mime) = Ok (dref, ns, schema, mime, 0%nat).
+Proof. exact stpp_roundtrip. Qed.
+Print Assumptions C19_stpp_roundtrip.
 
 (* Outside the quantifier (history starting from a DECODED init), reproduced on the real code by the harness:
    AddEmptyTrack repeats an id when the decoded ids are not 1..n, and does not keep the traks together when the
